@@ -58,6 +58,7 @@ func cmdVerify(args []string) {
 	all := fs.Bool("v", false, "print discharged obligations too")
 	gen := fs.Bool("gen", false, "generate only")
 	dump := fs.String("dump", "", "dump the query of the obligation with this id")
+	showModel := fs.Bool("m", false, "print solver models of failed obligations")
 	fs.Parse(args)
 	w, err := vc.Load(*repo)
 	if err != nil {
@@ -114,7 +115,7 @@ func cmdVerify(args []string) {
 			if o.Status == "error" {
 				fmt.Println(o.Output)
 			}
-			if len(o.Model) > 0 {
+			if len(o.Model) > 0 && *showModel {
 				var ks []string
 				for k := range o.Model {
 					ks = append(ks, k)
